@@ -19,12 +19,12 @@ BodyPieces == <<
   {"", "\n", "\n\n", " \n", "\n ", "\r\n", "\f", "\n\t\n"}         \* the end of the file
 >>
 ArgPieces == <<
-  {"", "x", "0"},                                                       \* junk in front
+  {"", "x", "0", "d/", "/"},                                            \* junk in front (also a directory part)
   {"932100", "93210", "9321000", "", "93210a"},                          \* the digits
   {"", "-chain0", "-chain1", "-chain7", "-chain255", "-chain256", "-chain300", "-chain65536",
    "-chain18446744073709551616", "-chain", "-chain-1", "-chain007", "-chain1x", "-Chain1", "chain1"},
   {"", ".ra", ".raw", ".ra.ra", ".yaml", "."},                           \* extension
-  {"", "x", " "}                                                        \* junk behind
+  {"", "x", " ", "/"}                                                   \* junk behind
 >>
 Pieces == IF Mode = "stdin" THEN BodyPieces ELSE ArgPieces
 
